@@ -50,6 +50,20 @@ CLAIMED = {
         technique="Lean 4 proof (Finset sum algebra over an ordered field) + exact rational correspondence",
         note=TB + " sqrt/IEEE rounding outside the model (error^2 carried exactly; decisions within 1e-7 of a tie skipped and counted); np.median convention modelled; ensemble clauses are tests.",
     ),
+    "C17": dict(
+        category="proof",
+        text=("Lean theorems over any linearly ordered field and any size: the code's loop state is the Schur-complement residual "
+              "R_k = M - sum L L^T (invariant: symmetric, PSD, divisor >= pivot, delta_max = largest residual diagonal), PSD entries are "
+              "bounded by the diagonal (Cauchy-Schwarz for PSD forms), hence on the threshold exit of the NumPy routine every element of "
+              "M - sum L_g L_g^T is <= max_error for any eps >= 0, any rank; the JAX routine's residual is bounded by delta_max and the "
+              "factorisation is exact once delta_max = 0 (as many vectors as the rank); the driver's array-based run is proved equal to the "
+              "model's loop. Tied to the code by vector-by-vector comparison with the exact square-root-free model and by the reconstruction "
+              "bound / exactness / jvp-vs-finite-difference checks on the implementation (incl. shell-chunked variant on small molecules). "
+              "The differentiability clause is validated (jvp = FD = tangent at full rank), not proved."),
+        design_ref="DESIGN.md §5/C17",
+        technique="Lean 4 proof (loop invariant + PSD Schur complement + Cauchy-Schwarz) + exact rational correspondence",
+        note=TB + " sqrt, IEEE rounding, lax.scan/jvp and pyscf integrals are outside the model; pivot/threshold near-ties are skipped by exact margin and counted.",
+    ),
 }
 
 NOT_YET = {}
